@@ -99,9 +99,9 @@ Qed.
 Lemma bool_iff (a b : bool) : (a = true <-> b = true) -> a = b.
 Proof. destruct a, b; intros [H1 H2]; try reflexivity; [symmetry; apply H1; reflexivity | apply H2; reflexivity]. Qed.
 
-Lemma tvc_spec_lemma ncov d : ncov <> O -> tvc_impl ncov d = Ok (tvc_walk ncov d).
+Lemma tvc_spec_lemma ncov d : tvc_impl ncov d = Ok (tvc_walk ncov d).
 Proof.
-  intros H. unfold tvc_impl, tvc_walk. destruct ncov as [|n]; [congruence|]. f_equal.
+  unfold tvc_impl, tvc_walk. destruct ncov as [|n]; [reflexivity|]. f_equal.
   apply map_ext. intros j. apply bool_iff. rewrite tvc_impl_varies.
   rewrite (tvc_walk_varies j (ds_rows d) [] []).
   - reflexivity.
@@ -195,9 +195,9 @@ Qed.
 Lemma concat_map_singleton {A B} (f : A -> B) l : map f l = concat (map (fun k => [f k]) l).
 Proof. induction l as [|k ks IH]; [reflexivity|]. cbn [map concat app]. f_equal. exact IH. Qed.
 
-Lemma nobs_per_spec_lemma d : guard_obs_count d = true -> nobs_per_impl d = Ok (nobs_per_walk d).
+Lemma nobs_per_spec_lemma d : nobs_per_impl d = Ok (nobs_per_walk d).
 Proof.
-  intros G. unfold nobs_per_impl. rewrite (obs_spec_lemma d G). f_equal. unfold nobs_per_walk.
+  unfold nobs_per_impl. rewrite (obs_spec_lemma d). f_equal. unfold nobs_per_walk.
   set (s := ds_sch d). set (rows := ds_rows d).
   assert (Ek : skeys (map fst (count_walk s [] rows)) = skeys (map (fun o : Z * Z * Z => fst (fst o)) (obs_walk s rows))).
   { apply asc_ext; try apply asc_skeys. intros k. rewrite !In_skeys, count_walk_keys, obs_walk_id_in. cbn. tauto. }
@@ -229,13 +229,13 @@ Qed.
 (* get_admid = the admid of the latest dose event carried forward, when no record is a
    reset-and-dose event (EVID 4) and EVID is what NM-TRAN would supply *)
 Lemma admid_spec_lemma mi d cmt ref :
-  has_admid (ds_sch d) = false -> id_named_ID (ds_sch d) = true ->
+  has_admid (ds_sch d) = false ->
   match ds_rows d with r0 :: _ => r_lab r0 = 0 | [] => False end ->
   guard_evid d = true -> forallb (fun v => negb (v =? 4)) (evid_walk d) = true ->
   cmt_impl mi d = Ok cmt -> admid_ref mi d = Ok ref ->
   admid_impl mi d = Ok (combine (map fst cmt) ref).
 Proof.
-  intros Ha Hid H0 Ge G4 Ec Er. unfold admid_impl, admid_ref in *. rewrite Ha. rewrite Ec in *. rewrite Hid. cbn [negb].
+  intros Ha H0 Ge G4 Ec Er. unfold admid_impl, admid_ref in *. rewrite Ha. rewrite Ec in *.
   rewrite (evid_spec_lemma d Ge).
   destruct (ds_rows d) as [|r0 rows] eqn:Erows; [destruct H0|]. rewrite H0.
   destruct (map (fun lv : Z * Z => zreplace _ (snd lv)) cmt) as [|a0 adm] eqn:Eadm.
